@@ -238,6 +238,10 @@ func runC04(c *core.Ctx) {
 						if _, isArr := f.Type().Underlying().(*types.Array); isArr {
 							wrote = "slice of receiver array field " + f.Name() + " passed on at " + p.InstrPos(x)
 						}
+						// a buffer kept in the receiver handed to something that writes into it
+						if _, isSlice := f.Type().Underlying().(*types.Slice); isSlice && calleeWritesArg(p, x, a, 0) {
+							wrote = "receiver buffer " + f.Name() + " is filled per message at " + p.InstrPos(x)
+						}
 					}
 				}
 			}
@@ -871,4 +875,92 @@ func runStripBase(c *core.Ctx) {
 		c.Instance("R7")
 		c.OK("R7", "strip-base", "", "no decoder skips leading bytes with io.CopyN")
 	}
+}
+
+// calleeWritesArg: the call instruction `in` writes through its slice argument a: the destination of copy, the
+// buffer of a ByteOrder.PutUintNN / binary.PutUvarint / io.ReadFull / Read, or a repository function whose
+// corresponding parameter is written (element store, or passed on to such a callee).
+func calleeWritesArg(p *core.Prog, in ssa.Instruction, a ssa.Value, depth int) bool {
+	if depth > 2 {
+		return false
+	}
+	if args, ok := core.IsBuiltinCall(in, "copy"); ok {
+		return len(args) > 0 && sameOrigin(args[0], a)
+	}
+	cc := core.CallCommon(in)
+	if cc == nil {
+		return false
+	}
+	if cc.IsInvoke() {
+		n := cc.Method.Name()
+		if strings.HasPrefix(n, "Put") || n == "Read" {
+			for _, x := range cc.Args {
+				if sameOrigin(x, a) {
+					return true
+				}
+			}
+		}
+		return false
+	}
+	if core.IsPkgFunc(in, "encoding/binary", "PutUvarint") || core.IsPkgFunc(in, "encoding/binary", "PutVarint") || core.IsPkgFunc(in, "io", "ReadFull") {
+		for _, x := range cc.Args {
+			if sameOrigin(x, a) {
+				return true
+			}
+		}
+		return false
+	}
+	f := cc.StaticCallee()
+	if f == nil || !p.InRepo(f) || f.Blocks == nil {
+		return false
+	}
+	for i, x := range cc.Args {
+		if !sameOrigin(x, a) || i >= len(f.Params) {
+			continue
+		}
+		prm := f.Params[i]
+		written := false
+		core.AllInstrs(f, func(y ssa.Instruction) {
+			if st, ok := y.(*ssa.Store); ok {
+				if ia, ok := st.Addr.(*ssa.IndexAddr); ok && sameOrigin(ia.X, prm) {
+					written = true
+				}
+			}
+			if yc := core.CallCommon(y); yc != nil || isBuiltinCopy(y) {
+				var yargs []ssa.Value
+				if yc != nil {
+					yargs = yc.Args
+				}
+				if cargs, ok := core.IsBuiltinCall(y, "copy"); ok {
+					yargs = cargs
+				}
+				for _, ya := range yargs {
+					if sameOrigin(ya, prm) && calleeWritesArg(p, y, ya, depth+1) {
+						written = true
+					}
+				}
+			}
+		})
+		if written {
+			return true
+		}
+	}
+	return false
+}
+
+func isBuiltinCopy(in ssa.Instruction) bool {
+	_, ok := core.IsBuiltinCall(in, "copy")
+	return ok
+}
+
+// sameOrigin: a and b are (re-slicings of) the same slice value.
+func sameOrigin(a, b ssa.Value) bool {
+	for _, oa := range sliceOrigins(a) {
+		for _, ob := range sliceOrigins(b) {
+			if oa == ob || core.SameValue(oa, ob) {
+				return true
+			}
+		}
+	}
+	return false
 }
